@@ -604,6 +604,24 @@ def exhaustive_odd_names(ctx, n, stride=1):
           check_project(ctx, proj, "O%d" % n, use_real_ninja=False)
 
 
+def exhaustive_dags(ctx, n, stride=1):
+  """Every acyclic import graph on n plain source modules whose edges go from
+  a higher to a lower index (every DAG up to renaming), all modules requested:
+  shared dependencies at every depth, consumers before and after each other."""
+  pairs = [(a, b) for a in range(n) for b in range(a)]
+  idx = 0
+  for mask in range(1 << len(pairs)):
+    idx += 1
+    if idx % (ctx.nshards * stride) != ctx.shard * stride:
+      continue
+    edges = [list(pairs[i]) for i in range(len(pairs)) if mask >> i & 1]
+    proj = {"root": ROOTS[idx % len(ROOTS)], "out": OUTS[idx % len(OUTS)],
+            "modules": [dict(kind="Local", ext="py", init=False, inpkg=False)
+                        for _ in range(n)],
+            "edges": edges, "inputs": list(range(n)), "broken": []}
+    check_project(ctx, proj, "D%d" % n, use_real_ninja=False)
+
+
 def exhaustive(ctx, n, rich, real_every):
   pairs = [(a, b) for a in range(n) for b in range(n) if a != b]
   idx = 0
@@ -685,6 +703,8 @@ def run_shard(ctx):
     exhaustive(ctx, 3, rich=True, real_every=997)
     exhaustive_odd_names(ctx, 2)
     exhaustive_odd_names(ctx, 3, stride=8)
+    exhaustive_dags(ctx, 4)
+    exhaustive_dags(ctx, 5)
     n = 100
   else:
     exhaustive(ctx, 2, rich=True, real_every=16)
@@ -692,6 +712,9 @@ def run_shard(ctx):
     exhaustive(ctx, 4, rich=False, real_every=9973)
     exhaustive_odd_names(ctx, 2)
     exhaustive_odd_names(ctx, 3)
+    exhaustive_dags(ctx, 4)
+    exhaustive_dags(ctx, 5)
+    exhaustive_dags(ctx, 6)
     n = 6000
   counter = [0]
 
